@@ -312,6 +312,9 @@ def run(ctx: Ctx):
     padding_invariance(ctx, "C04.c", msl, msl.cell("current_length"))
     guarded_callees(ctx)
     ffsp_tables_per_reset(ctx)
+    # C04.j: padding steps repeat a node; the legs they add must have length exactly zero (no smoothing constant in the helpers)
+    from .C03 import exact_distances
+    exact_distances(ctx, "C04.j", [])
     alone_steppable(ctx)
     rewards_read_frozen_state(ctx)
     episode_state_lives_in_the_tensordict(ctx)
